@@ -392,8 +392,10 @@ Definition ex_words : list Z :=
 Definition ex_cfg : hzcfg :=
   {| hz_hw := {| hw_ncores := 1; hw_lut_addr := 14336; hw_shram_size := 16384 |}; hz_max_dma := 1; hz_max_kern := 2 |}.
 
+Definition ex_verdict (ws : list Z) : option bool :=
+  match run_stream ws with Some evs => Some (check_hazards ex_cfg evs) | None => None end.
+
 Example hazards_example :
-  (exists evs, run_stream ex_words = Some evs /\ check_hazards ex_cfg evs = true) /\
-  (exists evs, run_stream (filter (fun w => negb (w mod 65536 =? 17)) ex_words) = Some evs /\
-               check_hazards ex_cfg evs = false).
-Proof. split; eexists; split; vm_compute; reflexivity. Qed.
+  ex_verdict ex_words = Some true /\
+  ex_verdict (filter (fun w => negb (w mod 65536 =? 17)) ex_words) = Some false.
+Proof. split; vm_compute; reflexivity. Qed.
